@@ -74,6 +74,41 @@ def translate():
     return json.loads(p.stdout)
 
 
+TABLE_OWNERS = {"ext": ("C16",), "detectors": ("C14",)}   # the properties whose theorems are stated over the table
+
+
+def live_tables_check(tr, tb, prop=None):
+    """the second tie of the generated tables: what the running implementation reports (`bwh tables`: the live
+    `language_parsers()` map with grammar identity by `Rc::ptr_eq`, the names in `DETECTOR_FACTORIES`) must be the table the
+    theorems were checked over - whether the translator could read the source this time or kept the last generated table.
+    Returns notes for the evidence; raises Broken when a generated table is not the live one."""
+    notes = []
+    gen_classes = {}
+    for ext, parser in tr["ext"]:
+        gen_classes.setdefault(parser, []).append(ext)
+    gen = sorted((ext, min(gen_classes[parser])) for ext, parser in tr["ext"])
+    live = sorted((e, c) for e, c in tb.get("ext_live", []))
+    if gen != live:
+        only_gen = [e for e in gen if e not in live]
+        only_live = [e for e in live if e not in gen]
+        if prop not in TABLE_OWNERS["ext"]:
+            notes.append(f"the generated extension table differs from the live one (generated-only {only_gen}, live-only {only_live}); this property's theorems do not depend on it, its correspondence components decide")
+        else:
+          raise Broken("the extension table the theorems were checked over is not the table of the running implementation",
+                     f"generated-only (suffix, class): {only_gen}\nlive-only (suffix, class): {only_live}\ntranslator: {tr.get('errors', {}).get('ext', 'ok')}")
+    if [n for n, _ in tr["detectors"]] != tb.get("detectors_live"):
+        if prop not in TABLE_OWNERS["detectors"]:
+            notes.append(f"the generated detector list differs from the live one ({tb.get('detectors_live')}); this property's theorems do not depend on it, its correspondence components decide")
+        else:
+          raise Broken("the detector list the theorems were checked over is not DETECTOR_FACTORIES of the running implementation",
+                     f"generated: {[n for n, _ in tr['detectors']]}\nlive: {tb.get('detectors_live')}\ntranslator: {tr.get('errors', {}).get('detectors', 'ok')}")
+    for t, msg in (tr.get("errors") or {}).items():
+        how = {"ext": "equal to the live `language_parsers()` map (suffixes and grammar identity)",
+               "detectors": "equal to the live DETECTOR_FACTORIES names"}.get(t, "exercised by the correspondence components of the properties that use it")
+        notes.append(f"table `{t}`: the translator could not read the source ({msg}); the last generated table is kept and is {how}")
+    return notes
+
+
 def tables():
     os.makedirs(WORK, exist_ok=True)
     out = sh([BWH, "tables"]).stdout
@@ -592,7 +627,10 @@ def prepare(prop, meta, need_binary):
         if need_binary:
             build_repo_binary()
         tr = translate()
-        tables()
+        tb = tables()
+        tr["notes"] = live_tables_check(tr, tb, prop)
+        for n in tr["notes"]:
+            print("  note: " + n)
         if "pre" in meta:
             meta["pre"](prop)
         lake_build([meta["module"], "bwmodel"])
@@ -669,6 +707,9 @@ def main():
         tr, obligations = prepare(prop, meta, meta.get("needs_binary", False))
         rep.obligations = obligations
         rep.extra["translated_tables"] = {k: (len(v) if isinstance(v, list) else v) for k, v in tr.items() if k in ("ext", "detectors")}
+        rep.extra["live_tables"] = "extension table and detector list compared with the running implementation (bwh tables)"
+        if tr.get("notes"):
+            rep.extra["translator_notes"] = tr["notes"]
         known_findings_pass(rep, registry)
         corpus_pass(rep)
         meta["run"](rep, tier, seed, tr)
